@@ -46,6 +46,7 @@ enum { ENC_ASCII = 0, ENC_BYTE = 1, ENC_UTF8 = 2, ENC_UTF16_LE = 3, ENC_UTF16_BE
                      && __CPROVER_is_fresh(DI_data(UT_chars(t)), DI_cap(UT_chars(t)) * sizeof(int)))
 #define DI_FRESH_IN(v) (DI_cap(v) <= MAXCAP && DI_size(v) <= DI_cap(v) && __CPROVER_is_fresh(DI_data(v), DI_cap(v) * sizeof(int)))
 #define V8_FRESH_IN(v) (V8_cap(v) <= MAXCAP && V8_size(v) <= V8_cap(v) && __CPROVER_is_fresh(V8_data(v), V8_cap(v)))
+#define UNC_LOWER(c) (((c) >= 'A' && (c) <= 'Z') ? (char)((c) + 32) : (c))
 /* modelled capacity bound: any value up to 2^40 elements (CBMC object size limit is 2^55 bytes) */
 #define MAXCAP (1UL << 40)
 #endif
